@@ -1037,4 +1037,12 @@ CASES = [
       _check_failure_counter(_options.error_notifier);
 
 """, "")]),
+
+ dict(name="c07-signal-logger-no-fallback", ids=["C07"], rule="C07.R4k", subs=[("backend/SignalHandler.h", """    if (!logger_base || !logger_base->is_valid_logger())
+    {
+      logger_base = LoggerManager::instance().get_valid_logger(excluded_logger_name_substr);
+    }""", """    if (instance().logger_name.empty())
+    {
+      logger_base = LoggerManager::instance().get_valid_logger(excluded_logger_name_substr);
+    }""")]),
 ]
